@@ -41,6 +41,8 @@ type Program struct {
 	VarContracts map[types.Object]*Contract
 	LoadErrors []string
 	RepoDir    string
+	stable     map[types.Object]bool
+	unstable   map[types.Object]bool
 }
 
 func relPkg(path string) string {
@@ -167,6 +169,64 @@ func LoadProgram(repoDir string) (*Program, error) {
 		c.Fn = fi
 	}
 	return p, nil
+}
+
+// StableGlobal reports whether a package-level variable of /repo has an initialiser and is never assigned
+// (or has its address taken) anywhere in /repo after that — checked syntactically over all loaded files.
+func (p *Program) StableGlobal(o types.Object) bool {
+	if p.stable == nil {
+		p.stable = map[types.Object]bool{}
+		p.unstable = map[types.Object]bool{}
+		for _, pkg := range p.Pkgs {
+			for _, f := range pkg.Syntax {
+				ast.Inspect(f, func(n ast.Node) bool {
+					mark := func(e ast.Expr) {
+						switch x := ast.Unparen(e).(type) {
+						case *ast.Ident:
+							if ob := pkg.TypesInfo.ObjectOf(x); ob != nil {
+								p.unstable[ob] = true
+							}
+						case *ast.SelectorExpr:
+							if _, isSel := pkg.TypesInfo.Selections[x]; !isSel {
+								if ob := pkg.TypesInfo.ObjectOf(x.Sel); ob != nil {
+									p.unstable[ob] = true
+								}
+							}
+						}
+					}
+					switch x := n.(type) {
+					case *ast.AssignStmt:
+						if x.Tok != token.DEFINE {
+							for _, l := range x.Lhs {
+								mark(l)
+							}
+						}
+					case *ast.IncDecStmt:
+						mark(x.X)
+					case *ast.UnaryExpr:
+						if x.Op == token.AND {
+							mark(x.X)
+						}
+					case *ast.GenDecl:
+						if x.Tok == token.VAR {
+							for _, sp := range x.Specs {
+								vs := sp.(*ast.ValueSpec)
+								if len(vs.Values) > 0 {
+									for _, nm := range vs.Names {
+										if ob := pkg.TypesInfo.Defs[nm]; ob != nil && ob.Parent() == pkg.Types.Scope() {
+											p.stable[ob] = true
+										}
+									}
+								}
+							}
+						}
+					}
+					return true
+				})
+			}
+		}
+	}
+	return p.stable[o] && !p.unstable[o]
 }
 
 // ifaceKey names an interface method: <relpkg>.<Iface>.<Method>.
